@@ -1,3 +1,4 @@
+import Mrpro.Lemmas.SrcL
 import Mrpro.Model.Index
 import Mrpro.Model.Vec
 import Mathlib.Tactic.Ring
@@ -81,5 +82,14 @@ theorem applyAlong_stack {K : Type} (inner n m outer : Nat) (op : (Nat â†’ K) â†
 
 /-- non-vacuity of the hypotheses of `applyAlong_stack` -/
 example : (0 : Nat) < 3 âˆ§ (0 : Nat) < 4 := by decide
+
+/-! ### Tie to the source: `normalize_index` as translated from `/repo` on this run -/
+
+/-- the function `normalize_index` of the current source text (translated by `harness/translate_src.py`
+into `M.Src.normalize_index`) is the model `normIndex`, for every rank and every integer index;
+`none` is the `IndexError` branch -/
+theorem src_normalize_index (ndim : Nat) (i : Int) :
+    M.Src.normalize_index ndim i = (normIndex ndim i).map (fun k => (k : Int)) :=
+  M.SrcL.normalize_index_eq ndim i
 
 end C11
